@@ -4,6 +4,7 @@ import (
 	"bytes"
 	"fmt"
 	"io"
+	"math"
 	"unicode/utf8"
 )
 
@@ -99,6 +100,11 @@ func (d *Decoder) decodeBytesOfType(expected Type) ([]byte, error) {
 	n, err := d.decodeOfType(expected)
 	if err != nil {
 		return nil, err
+	}
+	if n > math.MaxInt64 {
+		// int64(n) would be negative and io.CopyN would copy nothing
+		// without reporting an error.
+		return nil, fmt.Errorf("cbor: Length %d is too large", n)
 	}
 	bs := new(bytes.Buffer)
 	if _, err := io.CopyN(bs, d.r, int64(n)); err != nil {
